@@ -512,6 +512,10 @@ impl Watcher {
             return Err(GetSubscriptionInfoFailure::SubscriptionExpired(expiry));
         }
 
+        // An appointment being added is charged first and stored afterwards, holding the locator cache meanwhile (see
+        // `add_appointment`). Wait for it, otherwise the balance would reflect an appointment that is not listed yet.
+        let _locator_cache = self.locator_cache.lock().unwrap();
+
         self.gatekeeper
             .get_user_info(user_id)
             .ok_or(GetSubscriptionInfoFailure::AuthenticationFailure)
